@@ -6,6 +6,10 @@ VERIF = os.path.dirname(os.path.dirname(os.path.abspath(__file__)))
 props = [json.loads(l) for l in open(os.path.join(VERIF, "properties.jsonl"))]
 
 CLAIMS = {
+ "C18": dict(
+  text="Theorems on a reduced store-transformer model of incremental evaluation (Coq, closed): for every program, every partition into consecutive pieces and every placement of rejected pieces, the incremental run ends in the whole-program store when no statement fails, and rejected pieces are inert (same store, same results of the other pieces) also in the presence of run-time failures. The oracle drives ONE compiler and ONE VM exactly as cmd/risor/repl does on random partitions of generated programs with parser-rejected, compiler-rejected and failing pieces inserted, and compares globals, values and print trace with the whole-program run / the history without the insert; 1100 consecutive expression pieces check the stack.",
+  note="Trusted: Coq kernel, harness. The theorems assume what the oracle checks on the code: a rejected piece leaves no trace and a statement's effect depends only on the globals. Known finding: a compiler-rejected compound piece is not rolled back.",
+  technique="Rocq theorems on a reduced model + REPL-equivalence oracle on the implementation", ref="DESIGN.md section 5 C18"),
  "C17": dict(
   text="Proved in Coq for marshalled states of any size and nesting: with distinct function ids and code ids (what the compiler produces, checked on every real state) codeFromState's lookups link every function constant to its own code object and every code object to its parent again, and the repaired rule recomputes the named flag exactly (the pre-repair rule is refuted by a function called __main__). The extracted relinking is run on the real definitions of every program and compared with what UnmarshalCode rebuilt. The oracle marshals twice, unmarshals, re-marshals and evaluates original and reloaded code side by side for the programs of the C01/C02 generators and the corpus.",
   note="Trusted: Coq kernel, extraction, harness; encoding/json's verbatim transport of numbers, valid UTF-8 strings and arrays is assumed (and exercised by the byte-equality oracle). Known finding: string constants that are not valid UTF-8.",
